@@ -950,6 +950,9 @@ mutant('S2-commit-nonce-overflow-case-dropped', ['C03'], [
 mutant('D2-deleted-account-never-publishes-basic-none', ['C08', 'C01'], [
     ('src/incarnation_db.rs', "                    if !self.beneficiary.matches(*address) {", "                    if false {"),
 ], ['|D2|'])
+mutant('R6-every-storage-writer-registered-as-blocker', ['C05'], [
+    ('src/incarnation_db.rs', "            slot_version = ReadVersion::MvMemory(TxVersion::new(txid, entry.incarnation));", "            self.blocking_txs.insert(txid);\n            slot_version = ReadVersion::MvMemory(TxVersion::new(txid, entry.incarnation));"),
+], ['|R6|'])
 mutant('LC5-validate-stale-test-inverted', ['C05'], [(S, """        if tx_state.incarnation != incarnation {
             self.abort(AbortReason::ParallelError {
                 txid,
